@@ -25,7 +25,9 @@ type Obligation struct {
 	Inputs  []namedTerm // terms worth reporting from a model
 	Note    string
 	// result
-	Res SolverResult
+	Res        SolverResult
+	replayed   bool
+	replayNote string
 }
 
 type namedTerm struct {
@@ -52,6 +54,7 @@ type Exec struct {
 	unmodelled  map[string]int
 	l0used      map[string]int
 	inInit      bool
+	prop        string // property being checked ("" = all clauses)
 	inputs      []namedTerm
 	fnNotes     map[string][]string
 	pathTrace   []string
@@ -462,6 +465,10 @@ func (ex *Exec) evalInstr(st *State, in ssa.Value) Value {
 	switch x := in.(type) {
 	case *ssa.Alloc:
 		et := x.Type().(*types.Pointer).Elem()
+		if isNamed(et, "math/big", "Int") {
+			// new(big.Int): a non-nil *big.Int holding 0 (big.Ints are treated as immutable values)
+			return VBig{Nil: TFalse, V: BV(bigW, 0)}
+		}
 		return VPtr{Cell: ex.newCell(st, ex.zero(st, et, 0))}
 	case *ssa.BinOp:
 		return ex.binop(st, x)
@@ -860,7 +867,7 @@ func (ex *Exec) convert(st *State, x *ssa.Convert) Value {
 		s := v.(VStr).T
 		obj := ex.newObj(Blen(s), "conv")
 		st.heap[obj] = Barr(s)
-		return VSlice{Obj: obj, Off: BV(64, 0), Len: Blen(s), Cap: Blen(s), Nil: TFalse}
+		return VSlice{Obj: obj, Off: BV(64, 0), Len: Blen(s), Cap: Blen(s), Nil: TFalse, Whole: s}
 	case from == kBytes && to == kStr:
 		return VStr{ex.snapshot(st, v.(VSlice))}
 	case from == kBytes && to == kBytes, from == kStr && to == kStr:
@@ -876,10 +883,16 @@ func (ex *Exec) snapshot(st *State, s VSlice) *Term {
 		return EmptyBytes
 	}
 	arr := st.heap[s.Obj]
+	if s.Whole != nil && arr == Barr(s.Whole) && s.Len == Blen(s.Whole) && s.Off == BV(64, 0) {
+		return s.Whole
+	}
 	return snapArr(arr, s.Off, s.Len)
 }
 
 func snapArr(arr, off, ln *Term) *Term {
+	if arr == ZeroArr {
+		return MkBytes(ZeroArr, ln)
+	}
 	if n, ok := ln.U64(); ok && n <= 256 {
 		if _, ok := off.U64(); ok || n <= 64 {
 			out := ZeroArr
@@ -1097,14 +1110,14 @@ func (ex *Exec) freshSlice(st *State, hint string) VSlice {
 	st.assume(Implies(nilT, Eq(Blen(content), BV(64, 0))))
 	obj := ex.newObj(Blen(content), hint)
 	st.heap[obj] = Barr(content)
-	return VSlice{Obj: obj, Off: BV(64, 0), Len: Blen(content), Cap: Blen(content), Nil: nilT}
+	return VSlice{Obj: obj, Off: BV(64, 0), Len: Blen(content), Cap: Blen(content), Nil: nilT, Whole: content}
 }
 
 // sliceOfBytes makes a fresh non-nil slice with the given content.
 func (ex *Exec) sliceOf(st *State, content *Term, nilT *Term) VSlice {
 	obj := ex.newObj(Blen(content), "lib")
 	st.heap[obj] = Barr(content)
-	return VSlice{Obj: obj, Off: BV(64, 0), Len: Blen(content), Cap: Blen(content), Nil: nilT}
+	return VSlice{Obj: obj, Off: BV(64, 0), Len: Blen(content), Cap: Blen(content), Nil: nilT, Whole: content}
 }
 
 func bigInRange(v *Term) *Term {
